@@ -1713,7 +1713,7 @@ func c16r17(c *Ctx, r *Report) {
 				pc = pathConds(fn)
 			}
 			n++
-			base := fmt.Sprintf("%s:%s[%d]", relName(fn), x.Name(), k)
+			base := fmt.Sprintf("%s:%s[%d]", relName(fn), producerName(x), k)
 			cnt[base]++
 			key := base
 			if cnt[base] > 1 {
@@ -3374,6 +3374,97 @@ func c09r16(c *Ctx, r *Report) {
 	r.floor("stores into Terminal.yanked", n, 4)
 }
 
+// c12r13: like C17-R11, for the --tmux relaunch: runProxy rebuilds the command line and re-exports the
+// environment into the popup's script; a constant index into a split result needs the same proof of length there
+// (D74: `pair := strings.SplitN(entry, "=", 2); ... pair[1]` — an environment entry without '=' made fzf --tmux
+// panic before anything was shown).
+func c12r13(c *Ctx, r *Report) {
+	l := c.L
+	r.rule("C12-R13", "I (length lower bounds from producers and path conditions, --tmux relaunch)", "P1",
+		"in every function of package fzf reachable from runProxy, each constant index s[k] on a slice is dominated by facts that give len(s) > k (producer guarantee, or a length test of the same slice on every path)",
+		"fzf --tmux panics on an unusual environment or argument instead of starting the popup")
+	rp := l.Fn("fzf", "runProxy")
+	if rp == nil {
+		r.unest("anchors", token.NoPos, nil, "anchor runProxy", "cannot resolve")
+		return
+	}
+	var fns []*ssa.Function
+	for fn := range reachableFns(rp) {
+		if fn.Pkg == l.pkg("fzf") && fn.Blocks != nil {
+			fns = append(fns, fn)
+		}
+	}
+	sort.Slice(fns, func(i, j int) bool { return fns[i].String() < fns[j].String() })
+	n := 0
+	for _, fn := range fns {
+		var pc *PathConds
+		cnt := map[string]int{}
+		eachInstr(fn, func(in ssa.Instruction) {
+			ia, ok := in.(*ssa.IndexAddr)
+			if !ok {
+				return
+			}
+			if _, ok := ia.X.Type().Underlying().(*types.Slice); !ok {
+				return
+			}
+			k, isc := constIntVal(ia.Index)
+			if !isc {
+				return
+			}
+			if pc == nil {
+				pc = pathConds(fn)
+			}
+			n++
+			base := fmt.Sprintf("%s:%s[%d]", relName(fn), producerName(ia.X), k)
+			cnt[base]++
+			key := base
+			if cnt[base] > 1 {
+				key = fmt.Sprintf("%s #%d", base, cnt[base])
+			}
+			ok2, why := provenLen(fn, pc, ia.X, k+1, in.Block(), 0)
+			if ok2 {
+				r.ok(key, ia.Pos(), fn, "len > index: "+why)
+			} else {
+				r.unest(key, ia.Pos(), fn, fmt.Sprintf("len(%s) > %d on every path", ia.X.Name(), k), "no producer guarantee and no dominating length test found ("+why+")")
+			}
+		})
+	}
+	r.floor("constant slice indexes in the --tmux relaunch", n, 3)
+}
+
+// producerName describes where an indexed value comes from without SSA register names (keys must survive edits).
+func producerName(v ssa.Value) string {
+	switch x := v.(type) {
+	case *ssa.Call:
+		nm := calleeName(x.Common())
+		if i := strings.LastIndex(nm, "/"); i >= 0 {
+			nm = nm[i+1:]
+		}
+		return "result of " + nm
+	case *ssa.Parameter:
+		return x.Name()
+	case *ssa.UnOp:
+		if al, ok := x.X.(*ssa.Alloc); ok && al.Comment != "" {
+			return al.Comment
+		}
+		if fv, ok := x.X.(*ssa.FreeVar); ok {
+			return fv.Name()
+		}
+		if fld, _ := fieldOf(x.X); fld != nil {
+			return "field " + fld.Name()
+		}
+	case *ssa.Slice:
+		return "slice of " + producerName(x.X)
+	case *ssa.Phi:
+		if x.Comment != "" {
+			return x.Comment
+		}
+	case *ssa.Extract:
+		return producerName(x.Tuple)
+	}
+	return v.Type().String() + " value"
+}
+
 // round8 runs the round-8 rules of a property (own and shared) after the property's older rules.
 func round8(c *Ctx, r *Report, prop string) {
 	switch prop {
@@ -3418,6 +3509,7 @@ func round8(c *Ctx, r *Report, prop string) {
 		c11r18(c, r)
 		c11r19(c, r)
 	case "C12":
+		c12r13(c, r)
 		c12r12(c, r)
 	case "C06":
 		c13r11(c, r) // every record becomes an item: the reader is never blocked for good
